@@ -207,12 +207,41 @@ class _PathState:
         self.trace = []
 
 
+def _token_source(run, P, f: Func, lp):
+    """The words that are laid out come from the quote-aware lexer on every path."""
+    it = lp.iter
+    if isinstance(it, ast.Call) and dotted(it.func) == "enumerate" and it.args:
+        it = it.args[0]
+    if not isinstance(it, ast.Name):
+        raise AnalysisError("wrap_line_base: the main loop does not walk a named token list")
+    tok = it.id
+    lex = None
+    for s_ in ast.walk(f.node):
+        if isinstance(s_, ast.If) and isinstance(s_.test, ast.Compare) \
+                and isinstance(s_.test.ops[0], ast.Is) and isinstance(s_.test.left, ast.Name) \
+                and s_.test.left.id in f.params:
+            lex = s_.test.left.id
+    defs = [s_ for s_ in ast.walk(f.node) if isinstance(s_, (ast.Assign, ast.AugAssign))
+            and any(isinstance(t, ast.Name) and t.id == tok
+                    for t in (s_.targets if isinstance(s_, ast.Assign) else [s_.target]))]
+    bad = [d for d in defs if not (isinstance(d, ast.Assign) and isinstance(d.value, ast.Call)
+                                   and isinstance(d.value.func, ast.Name) and d.value.func.id == lex
+                                   and len(d.value.args) == 1 and dotted(d.value.args[0]) == f.params[0])]
+    run.ob("C20.lexer", f, bad[0] if bad else (defs[0] if defs else f.node), bool(defs) and not bad,
+           construct=f"'{tok}' is only ever {lex}({f.params[0]})"
+                     + (f" (also: {norm(bad[0], 50)})" if bad else ""),
+           why="the words are re-joined with single blanks even when the line is not broken: "
+               "split on white space, a quoted string with two blanks or a tab in it comes "
+               "back changed although nothing was wrapped")
+
+
 def _once_fit_pad(run, P, f: Func):
     from .util import find, first, has
     loops = [n for n in f.node.body if isinstance(n, ast.For)]
     if len(loops) != 1:
         raise AnalysisError("wrap_line_base: main loop not found")
     lp = loops[0]
+    run.do(_token_source, run, P, f, lp)
     word = None
     if isinstance(lp.target, ast.Tuple) and len(lp.target.elts) == 2:
         word = lp.target.elts[1].id
